@@ -68,6 +68,7 @@ func cmdScan(args []string) {
 					if i%2 == 0 && s.GetYear() == y {
 						if s.GetHour() == 23 {
 							add("jie-at-23h", y)
+							add(fmt.Sprintf("jie-at-23h-in-month-%d", s.GetMonth()), y)
 						}
 						if s.GetHour()%2 == 1 && s.GetMinute() > 0 {
 							add("jie-in-odd-hour", y)
